@@ -11,3 +11,4 @@ import RagcModel.Model.LzDiff
 import RagcModel.Model.Pipeline
 import RagcModel.Model.Packs
 import RagcModel.Model.Agc3
+import RagcModel.Model.Fasta
